@@ -78,7 +78,8 @@ C03Fails(t) ==
                          THEN "C03:stale-view-event-overtook-later-commit"
                          ELSE "C03:stale-view-final-value-never-delivered") : i \in stale }
     \* with backpressure every commit made after the subscriber was registered is delivered
-    \cup (IF t.kinds[s].lossy THEN {}
+    \* (with an equivalence configured a commit of the value the subscriber holds is rightly not delivered)
+    \cup (IF t.kinds[s].lossy \/ t.equiv \notin {"", "none"} THEN {}
           ELSE UNION { LET e == t.commits[k] IN
                        If(Cardinality({ j \in after : t.commits[j].id = e.id /\ t.commits[j].v = e.v })
                             <= Count(evs, e.id, e.v, TRUE), "C03:commit-not-delivered") : k \in after })
